@@ -6,14 +6,17 @@ DRIVER = "TraitsVerif/Driver/Obs.lean"
 PROPS_MODULES = ["TraitsVerif.Props.C08"]
 TRANSLATORS = []
 RULE = ("histories over a pool of 3-5 interlinked HasTraits objects (value:Int, mate:Instance(tag), child:Instance "
-        "with an optional dynamic default, kids:List, byname:Dict, group:Set, add_trait of extra/xchild/items): "
+        "with an optional dynamic default, ichild / nchild: Instance with comparison_mode identity / none, per-case "
+        "value semantics: pool objects in the same `~class` of the header compare == although distinct, kids:List, byname:Dict, group:Set, add_trait of extra/xchild/items): "
         "0-4 linking mutations, observe of 1-2 random expressions (series, parallel, list/dict/set items, the DSL "
         "`items` expansion, +tag, *, optional traits, ':' vs '.') built with the public expression objects, then "
         "mutations (reassign, list/dict/set mutators incl. detached containers, same object twice, cycles, None "
         "items, default materialisation, add_trait); after EVERY op each Int trait of each pool object is read "
         "and incremented and the notifier population of every trait and container is printed; non-trivial = the "
         "op delivered an event, changed a population or raised; distinct = distinct output line")
-TRUSTED = ["Model.Obs heap: HasTraits instances as ordered trait lists (traits() order), containers as heap "
+TRUSTED = ["`==` of two distinct pool objects is a PARAMETER of the model (Env.eqo), supplied on the case line as "
+           "equality classes and realised by __eq__/__hash__ of the pool class; sets are kept out of such cases",
+           "Model.Obs heap: HasTraits instances as ordered trait lists (traits() order), containers as heap "
            "cells; object identity replaced by pool index / allocation identity written in the case",
            "set iteration order: pool objects hash to their pool index, so a TraitSet of them iterates in pool "
            "order (the model keeps sets sorted)",
@@ -49,6 +52,13 @@ def corpus():
         "obs|3|N,N,N|obs 0 0 t.kids.1.0 li.1.0 then t.kids.1.0 then li.1.0 then t.value.1.0 then;get 0 kids 100;la 100 0",
         "obs|3|N,N,N|obs 0 0 t.child.1.0 any.1 then;set 0 child 1;addt 1 extra 1;seti 1 extra 4",
         "obs|3|N,N,N|obs 0 0 meta.1 t.value.1.0 then;set 0 mate 1;addt 0 xchild 1;set 0 xchild 2",
+        # value-equal but distinct objects (header `~class`): a dict value replaced by an equal object is
+        # re-tracked; an identity- / none-compared trait reports an equal replacement
+        "obs|3|N~2,N~1,N~2|setd 1 byname 100 [0:2];obs 0 1 t.byname.1.0 di.1.0 then t.value.1.0 then;ds 100 0 0;ds 100 0 2",
+        "obs|3|N~0,N~1,N~1|setd 0 byname 100 [0:1];obs 0 0 t.byname.1.0 di.1.0 then t.child.1.0 t.value.1.0 then then;ds 100 0 2",
+        "obs|3|N~1,N~1,N~2|set 2 ichild 1;obs 0 2 t.ichild.1.0 any.1 then;set 2 ichild 0;set 2 ichild 0",
+        "obs|3|N~1,N~1,N~2|set 2 nchild 1;obs 0 2 t.nchild.1.0 t.value.1.0 then;set 2 nchild 0;set 2 nchild 0;"
+        "set 2 child 1;obs 1 2 t.child.1.0;set 2 child 0",
     ]
 
 
@@ -64,6 +74,8 @@ def generate(rng, tier):
         yield from O.exhaustive_small(2)
     for _ in range(nh):
         yield O.history_c08(rng)
+    for _ in range(nh // 6):
+        yield O.history_eq(rng)
 
 
 def run_impl(case):
